@@ -1,13 +1,14 @@
 // Part 7 (polydispatch.go): the form dispatch of ecc/<curve>/fr/iop/polynomial.go (7 packages) -> Gen/PolyDispatch.lean (C20).
 //
 // Recorded AS WRITTEN (nothing about the expected table is known to this pass):
-//   * the `Basis` / `Layout` constant blocks (`X T = <literal> << iota` + following names), the fields of `type Form struct`, the six
+//   - the `Basis` / `Layout` constant blocks (`X T = <literal> << iota` + following names), the fields of `type Form struct`, the six
 //     form ids `var ( canonicalRegular = Form{Canonical, Regular} … )` resolved to (Basis name, Layout name) through the field order,
-//   * ToLagrange / ToCanonical / ToLagrangeCoset: the ORDERED effects before the switch, of every `case` (label list + effects), of
+//   - ToLagrange / ToCanonical / ToLagrangeCoset: the ORDERED effects before the switch, of every `case` (label list + effects), of
 //     `default`, and after the switch,
-//   * ToRegular / ToBitReverse: the guard `if p.Layout == X { … }` and the effects after it,
-//   * Evaluate / evaluate / GetCoeff: the case structure (if / else / for / closure nesting) with a parsed form for the conditions and
+//   - ToRegular / ToBitReverse: the guard `if p.Layout == X { … }` and the effects after it,
+//   - Evaluate / evaluate / GetCoeff: the case structure (if / else / for / closure nesting) with a parsed form for the conditions and
 //     statements that match an expected pattern; every other statement of these three is kept verbatim as an opaque text item.
+//
 // A statement of the five conversion functions outside the effect grammar below is FATAL (gvgoslp exits non-zero).
 package main
 
